@@ -47,6 +47,8 @@ func runC01(c *Ctx, r *Report) {
 	importRules(c, r, "C05", []string{"R-C05.1"}, "R-C01.15")
 	r.Doc("R-C01.16", "a view is taken in one critical section (adopted from C13: a replica restored from a snapshot whose values are newer than its heads exposes other heads and values than the replica it was taken from)")
 	importRules(c, r, "C13", []string{"R-C13.12"}, "R-C01.16", 0)
+	r.Doc("R-C01.17", "which entries a merge takes over is decided by what the destination holds and by the log id only: no test on the entry's content controls the candidate walk (an entry appendable by its writer and skipped by the merge keeps the replicas apart for good)")
+	candidatesChosenByIdentityOnly(c, r, "R-C01.17")
 	r.Doc("R-C01.10", "entries are filed in the entry index under their own hash and in the predecessor index under their own predecessor links (a link index fed from references, or from another list, makes head filtering depend on merge order)")
 	indexKeys(c, r, "R-C01.10")
 	join := p.FuncI("", "IPFSLog", "Join")
